@@ -6,12 +6,49 @@ props = [json.loads(l) for l in open(os.path.join(here, 'properties.jsonl'))]
 ids = [p['id'] for p in props]
 
 # id -> (level category, technique, level text, level note, design ref)
+TB_MODEL = 'Trusts: the clean-room reference model refnoise (re-validated against the 472 Curve25519 cacophony vectors on every run; exit 2 if that fails), ring + own RFC 7693/2104/HKDF code as primitive oracles, proptest, rustc.'
+TB_API = 'Trusts: the harness\'s own transcription of the specification\'s pattern table (agrees with cacophony vectors for all 38 patterns), proptest, rustc. Drives only the public API (plus the guarded sending-nonce hook where stated).'
 CLAIMS = {
- 'C01': ('exploration',
-         'differential testing against a clean-room Noise rev34 reference model validated on the cacophony vectors (proptest + name-space enumeration)',
-         'Every generated session (all 556 handshake strings, all 24 primitive suites, custom names, permuted modifiers, max-length payloads, transport scripts, both roles, mixed snow/model sessions) is compared byte for byte with an independent model of the specification; snow is also run directly against the 472 third-party cacophony vectors. Held on everything explored; no proof of absence.',
-         'Trusts: refnoise model (self-tested on cacophony vectors on every run), ring + own BLAKE2/HMAC/HKDF as primitive oracles, proptest.',
-         'DESIGN.md 3 C01'),
+ 'C01': ('exploration', 'differential testing against a clean-room Noise rev34 reference model validated on the cacophony vectors (proptest + name-space enumeration)',
+         'Every generated session (all 556 handshake strings, all 24 primitive suites, custom names via NoiseParams::new, permuted modifiers, max-length payloads, transport scripts, both roles, stateful and stateless, mixed snow/model sessions) is compared byte for byte - messages, handshake hash after every message, payload-encrypted flag - with an independent model of the specification; snow is also run directly against the 472 third-party cacophony vectors. Held on everything explored; no proof of absence.', TB_MODEL, 'DESIGN.md 3 C01'),
+ 'C02': ('exploration', 'round-trip property over generated honest sessions with real OS randomness (proptest + enumeration of all names)',
+         'Round trip of honest sessions for every handshake string and suite with keys from generate_keypair and real random ephemerals (recorded), payload lengths 0..max, up to 30 transport messages in arbitrary direction interleaving, stateful/stateless per side with reordered delivery; thorough adds every (name, suite) pair and the hfs/Kyber build. The oracle does not depend on the random values.', TB_API, 'DESIGN.md 3 C02'),
+ 'C03': ('fault_enumeration', 'fault enumeration over message alterations with field maps from the reference model (+ proptest random edits)',
+         'Enumerates alterations of every handshake message (bit flips, truncations, extensions, byte edits, substitution by earlier / parallel-session messages); exhaustive for all single-bit flips and all truncation lengths of every message of the 38 base patterns. Checks that both parties never finish without an error and that alterations inside encrypted fields are rejected by the receiving read.', TB_API, 'DESIGN.md 3 C03'),
+ 'C04': ('fault_enumeration', 'fault enumeration on transport messages with accept-iff-genuine oracle over both cipher backends (+ proptest)',
+         'Forgeries of transport messages (all bit flips of sample messages, all truncations, extensions, reflection, cross-session, early/replayed messages, stateless nonce substitution over all 64 bit positions and boundary pairs) must be rejected and the genuine message must still be accepted afterwards, for all ciphers, hashes, both backends, both modes, interactive and one-way.', TB_API, 'DESIGN.md 3 C04'),
+ 'C05': ('exploration', 'model-based testing of delivery schedules: bounded-exhaustive enumeration + proptest schedules with shrinking',
+         'All delivery schedules up to length 5 (6 thorough) over {deliver any of K messages, garbage, undersized buffer, oversize} plus random longer schedules with set_receiving_nonce in both directions are checked against a one-integer-per-direction model after every step.', TB_API, 'DESIGN.md 3 C05'),
+ 'C06': ('exploration', 'history invariant over an instrumented CryptoResolver (recording cipher, DH and RNG); fault schedules enumerated + proptest',
+         'Both endpoints run behind a recording cipher; histories contain failing attempts (every C07 cause) retried with different payloads, conversions, failing transport writes, auto and manual rekeys, stateless writes. The merged log must never contain two encryptions of different data under one (key, nonce); every ephemeral on the wire must be the public key of bytes drawn from the RNG during that write.', TB_API, 'DESIGN.md 3 C06'),
+ 'C07': ('fault_enumeration', 'differential fault injection: faulty run vs fault-free run under a scripted RNG, enumerated from reference field maps (+ proptest scattered faults)',
+         'Every failure cause (buffer at each field boundary, oversize payload, missing PSK then set_psk, out-of-turn, flipped bit in each field, truncations, extension, foreign message, small payload buffer, oversize message; transport faults) at every message of the sampled names (all names in thorough) with 1-3 repetitions and scattered combinations: snapshot unchanged, retry succeeds, all later bytes identical to the fault-free run.', TB_API, 'DESIGN.md 3 C07'),
+ 'C08': ('exploration', 'negative differential testing: control session vs session with injected context disagreement (enumeration over all names + proptest combinations)',
+         'For every handshake string one disagreement at a time (name string incl. bytes beyond HASHLEN, modifier order, hash, cipher, sibling pattern, prologue bit/length/empty, PSK bit, wrong pre-shared static key) and random combinations: the handshake never completes on both sides without error, while the control without the disagreement completes.', TB_API, 'DESIGN.md 3 C08'),
+ 'C09': ('exploration', 'model-based testing with a recording cipher and the guarded sending-nonce hook (boundary scenarios + proptest sequences)',
+         'Counter model checked after every step of generated op sequences (writes, deliveries, failing ops, nonce setters at 2^64-4..2^64-1 and 2^32 boundaries, rekeys) in stateful and stateless mode for all ciphers/backends; Exhausted error at the reserved value; the cipher log never shows nonce 2^64-1 outside rekey and always shows the model counter.', TB_API + ' Uses hook verif_set_sending_nonce.', 'DESIGN.md 3 C09'),
+ 'C10': ('exploration', 'robustness fuzzing: exhaustive boundary sweep from reference field maps + proptest API op sequences with shrinking (+ libFuzzer target api_ops in thorough)',
+         'No public call may unwind: sweep of every buffer/payload/message length around every field boundary of every message (sampled names quick, all 556 x 2 DH thorough), transport sweep, arbitrary op sequences over the whole API with arbitrary names, key lengths 0..200, prologues to 66000, any psk location, conversions at any time; name parser on arbitrary strings. One recorded known finding (invalid P-256 private scalar) is excluded by construction and re-confirmed by a probe on each run.', TB_API + ' Non-termination/abort only observable as time-out (exit 2).', 'DESIGN.md 3 C10'),
+ 'C11': ('exploration', 'bounded-exhaustive model-based testing of call sequences (every node of the call tree to the depth bound) + proptest',
+         'Every sequence of handshake calls (valid/invalid writes, genuine/stale/garbage reads) to depth #messages+1 (+2 thorough) for all 38 patterns and both roles, with both conversions at every node and all length-2 transport continuations, against a (position, role) model incl. the documented error kinds and the turn/finished indicators.', TB_API, 'DESIGN.md 3 C11'),
+ 'C12': ('exploration', 'exhaustive enumeration of the builder configuration space against requirements derived from an independent pattern table',
+         'The finite configuration space is enumerated completely: key subsets x roles x patterns x DH, psk modifier indices and subsets, fallback, resolvers lacking each primitive, DH 448, generate_keypair, and every subset of PSKs supplied at build time; build result and error kind, later completion, and missing-PSK reporting are checked.', TB_API, 'DESIGN.md 3 C12'),
+ 'C13': ('exploration', 'differential testing of the parser against a reference recogniser: exhaustive product + exhaustive single-edit mutation + proptest strings',
+         'Complete product of valid components (166k names quick, 1.5M thorough), every single-character edit of a sample of valid names (about 1M strings), random grammar-aware and arbitrary Unicode strings; parse result, parsed components, verbatim name and error class compared with an independent recogniser; thorough adds the hfs build.', 'Trusts the reference recogniser written from the property statement; psk indices with leading zeros are not judged.', 'DESIGN.md 3 C13'),
+ 'C14': ('exploration', 'boundary-value enumeration against a reference length model (field maps of the clean-room Noise model)',
+         'For every handshake string and message: payload lengths around 0 and the maximum, output buffers around the predicted length, 0, 65535, 65536+; reads of genuine messages with payload buffers around the payload length, of every too-short length (thorough) and of oversize messages; transport likewise. Checks exact returned lengths, Input errors where the message cannot fit, success where it amply fits.', TB_MODEL, 'DESIGN.md 3 C14'),
+ 'C15': ('exploration', 'model-based differential testing against the reference AEAD/REKEY on unwrapped backends (bounded-exhaustive + proptest)',
+         'All op sequences to depth 4 (5 thorough) over writes, deliveries, auto rekeys of either direction on either side and manual rekeys, for all ciphers x backends x modes, plus random depth-40 sequences: every message equals ENCRYPT_ref under the key the REKEY definition yields, deliveries are accepted iff keys are in sync, nonces untouched.', TB_MODEL, 'DESIGN.md 3 C15'),
+ 'C16': ('exploration', 'metamorphic/differential property testing (stateless vs stateful sender, repeat/reorder invariance) + multi-threaded stress with schedule-independent oracle',
+         'Generated item sets (direction, 64-bit nonce incl. boundaries, payload) and call scripts with repetition and reordering: writes are deterministic and equal the stateful sender placed at that nonce, reads return the payload every time; 8 threads share the sessions and every result must equal the precomputed one.', TB_API + ' Thread interleavings are sampled, not enumerated.', 'DESIGN.md 3 C16'),
+ 'C17': ('exploration', 'differential observation against a reference key schedule (pattern table + independent DH), exhaustive over names x DH x roles x observation points',
+         'get_remote_static is observed after build, after every message and after both conversions for every handshake string x {25519, P256} x both roles, incl. variants with an unneeded different key supplied and with a rejected copy of the carrying message delivered first; expected value derived from the pattern table and the reference DH.', TB_API, 'DESIGN.md 3 C17'),
+ 'C18': ('exploration', 'differential testing of primitives against independent implementations and RFC known answers (boundary enumeration + proptest)',
+         'Hash/HMAC/HKDF, AEAD encrypt/decrypt/reject/rekey and DH objects of both built-in backends are compared with independent oracles (ring for the default backend, RustCrypto direct for the ring backend, own BLAKE2/HMAC/HKDF, RFC vectors) over length, nonce-bit and edge-value classes; the two oracle families are cross-checked each run.', 'Trusts ring, RustCrypto (as oracle for the ring backend only), the RFC 7693 transcription validated by Python hashlib KATs.', 'DESIGN.md 3 C18'),
+ 'C19': ('exploration', 'invariant check on the caller-visible buffer after injected authentication failures (enumeration + proptest)',
+         'For every suite x backend x read path (handshake payload, stateful, stateless) x alteration that keeps the key correct (tag bit, body byte, dropped byte, AD-only) x output buffer size: after the rejected read no 8-byte window of the genuine plaintext is present in the caller\'s buffer; the genuine message is then accepted.', TB_API, 'DESIGN.md 3 C19'),
+ 'C20': ('exploration', 'differential testing across crypto backends (transcript equality over all 9 backend assignments) + exhaustive fallback-resolution table with marker resolvers',
+         'For every handshake string and every suite both backends support, transcripts (handshake, hashes, transport incl. rekey, stateless) of all 9 backend assignments are byte-identical and interoperate; the complete (kind, choice, availability) table of FallbackResolver is enumerated with tagged resolvers.', TB_API, 'DESIGN.md 3 C20'),
 }
 NOT_YET = 'check not built yet in this phase (planned, see DESIGN.md 3.22)'
 
@@ -32,7 +69,7 @@ for i in ids:
         })
 man = {
  'version': 1,
- 'setup_cmd': 'cd harness && CARGO_NET_OFFLINE=true cargo build --release',
+ 'setup_cmd': 'cd harness && CARGO_NET_OFFLINE=true cargo build --release && CARGO_NET_OFFLINE=true cargo build --release --features hfs --target-dir target-hfs',
  'hooks': {
    'guard': 'cargo feature verif-hooks (off by default)',
    'enable': 'the harness depends on snow by path ../../repo with features use-p256 use-xchacha20poly1305 ring-resolver verif-hooks',
